@@ -5,7 +5,7 @@ import typed_gen as tg
 import vlib
 from props import c03 as base
 
-GEN = []
+GEN = ["GenSrcDigest"]
 TRUSTED = base.TRUSTED
 ASSUMPTIONS = base.ASSUMPTIONS + [
     "annotation sites: variable definitions, parameters of non-function type, return types; the annotations the generator "
